@@ -149,6 +149,11 @@ type Exch struct {
 	ConnReused  bool
 	TunnelFail  string
 	RawHead     string
+	Leaf        *x509.Certificate
+	TunnelOpenSeq int64
+	TunnelUpSeq int64
+	TunnelUpT   time.Time
+	ConnHost    string
 }
 
 type proxyWorld struct {
@@ -243,7 +248,7 @@ func (w *proxyWorld) findRes(host, path string) int {
 	}
 	for i := range w.p.Res {
 		r := &w.p.Res[i]
-		if strings.ToLower(r.Host) != h {
+		if strings.ToLower(r.Host) != h && r.Host != "*" {
 			continue
 		}
 		if r.Wild || r.Path == path {
@@ -279,6 +284,26 @@ func (w *proxyWorld) originHandler(rw http.ResponseWriter, req *http.Request) {
 		w.reqCnt[ri]++
 	}
 	w.mu.Unlock()
+	if ri >= 0 {
+		for _, kv := range w.p.Res[ri].Extra {
+			if kv[0] == "X-Sim-Raw" {
+				// hostile origin: literal bytes instead of a well-formed response
+				n, _ := strconv.Atoi(kv[1])
+				e.Res, e.Status = ri, -1
+				e.RespBody = []byte(hostileResponses[n%len(hostileResponses)])
+				w.res.Faults["hostile_origin_response"]++
+				if hj, ok := rw.(http.Hijacker); ok {
+					if c, _, err := hj.Hijack(); err == nil {
+						c.Write(e.RespBody)
+						c.Close()
+					}
+				}
+				e.Finished = true
+				e.DoneSeq = w.nextSeq()
+				return
+			}
+		}
+	}
 	h := rw.Header()
 	h.Set("X-Sim-Resp", strconv.Itoa(e.N))
 	if ri < 0 {
@@ -767,13 +792,23 @@ func (w *proxyWorld) clientTask(ci int) {
 				host = "raw.test"
 			}
 			var terr string
+			ex.TunnelOpenSeq = w.nextSeq()
 			cc, terr = w.openConn(ci, nconn, host)
 			nconn++
+			ex.ConnHost = host
 			if cc == nil {
 				ex.TunnelFail = terr
 				ex.Err = terr
+				ex.SendSeq = w.nextSeq()
+				ex.SendT = time.Now()
 				ex.RecvSeq = w.nextSeq()
 				continue
+			}
+			if cc.tls != nil {
+				if pcs := cc.tls.ConnectionState().PeerCertificates; len(pcs) > 0 {
+					ex.Leaf = pcs[0]
+				}
+				ex.TunnelUpSeq, ex.TunnelUpT = w.nextSeq(), time.Now()
 			}
 		} else {
 			ex.ConnReused = true
